@@ -31,7 +31,7 @@ from cotengra import core as ccore
 from cotengra.pathfinders import path_basic as pb
 from cotengra.hyperoptimizers import hyper as chyper
 
-from . import gen, common
+from . import gen, common, c05_presets, c05_sessions
 
 PROP = "C05"
 LEVEL = "proof"
@@ -53,7 +53,8 @@ LEVEL_NOTE = (
     "checked on the real trees, not proved; harness canonicalisation and the independent Python oracles.")
 TECHNIQUE = ("Lean 4 proofs (replay invariants, parametricity of the replay in the item type, termination "
              "measures) + certificate checking of real paths/trees + differential correspondence")
-LEAN_MODULES = ["CotengraVerif.Props.C05"]
+LEAN_MODULES = ["CotengraVerif.Props.C05", "CotengraVerif.Props.C05Facts"]
+ANCHOR_FILES = ["cotengra/__init__.py"]      # where most preset names are bound
 THEOREMS = [
     "Cotengra.C05.validLinear_iff_spec",
     "Cotengra.C05.validSSA_iff_spec",
@@ -69,6 +70,13 @@ THEOREMS = [
     "Cotengra.C05.agglom_counterexample",
     "Cotengra.C05.agglom_fixed_complete",
     "Cotengra.C05.kahypar_edge_cases",
+    "Cotengra.C05.preset_fresh_per_call_valid",
+    "Cotengra.C05.preset_shared_instance_counterexample",
+    "Cotengra.C05.shared_instance_same_network_valid",
+    "Cotengra.C05.shared_instance_decreasing_valid",
+    "Cotengra.C05.presets_bound_safely",
+    "Cotengra.C05.random_greedy_presets_fresh",
+    "Cotengra.C05.presets_listed",
 ]
 TRUSTED = [
     "Lean 4.33 kernel; axioms ⊆ {propext, Classical.choice, Quot.sound}",
@@ -92,6 +100,12 @@ BUDGET = {"quick": 900, "thorough": 3600}
 PRESETS = ["greedy", "optimal", "optimal-outer", "auto", "auto-hq", "random"]
 HYPER_METHODS = ["greedy", "random-greedy", "labels", "kahypar", "kahypar-balanced", "kahypar-agglom",
                  "labels-agglom", "random"]
+
+
+def gen_facts():
+    """what every registered preset name is bound to, and what the classes of the registered instances
+    carry between calls -- read off the live registry of the checkout under test"""
+    return {"CotengraVerif/Generated/FactsC05.lean": c05_presets.lean_source(c05_presets.extract())}
 
 
 # ------------------------------------------------------------------------------ time limits
@@ -123,18 +137,24 @@ def call_timeout(seconds):
 _HANGS = set()   # (site, label, ntensors class, disconnected) already seen not to terminate in this run
 
 
-def guarded(fn, limit=5):
-    """Run fn(); returns ("ok", value) | ("raises", "TypeName: msg") | ("no-termination", limit)."""
-    for attempt in (1, 2):
+def guarded(fn, limit=5, warns=None, attempts=2):
+    """Run fn(); returns ("ok", value) | ("raises", "TypeName: msg") | ("no-termination", limit).
+    `warns` (a list) collects the texts of the warnings issued; `attempts=1` never re-runs fn (a
+    second run would change the state a sequence of calls is about)."""
+    for attempt in range(1, attempts + 1):
         try:
-            with call_timeout(limit * attempt), warnings.catch_warnings():
-                warnings.simplefilter("ignore")
-                return "ok", fn()
+            with call_timeout(limit * attempt), warnings.catch_warnings(record=True) as w:
+                warnings.simplefilter("always" if warns is not None else "ignore")
+                try:
+                    return "ok", fn()
+                finally:
+                    if warns is not None:
+                        warns.extend(str(x.message)[:90] for x in w)
         except CallTimeout:
             continue
         except Exception as e:  # noqa: BLE001 -- any exception is a failure to return a contraction
             return "raises", f"{type(e).__name__}: {str(e)[:160]}"
-    return "no-termination", 2 * limit
+    return "no-termination", attempts * limit
 
 
 def forked(fn, limit=20):
@@ -183,11 +203,13 @@ def forked(fn, limit=20):
 # ------------------------------------------------------------------------------ independent oracles
 
 
-def valid_linear(n, path):
-    """every step names >= 1 distinct existing positions; one tensor left"""
+def valid_linear(n, path, partial=False):
+    """every step names >= 1 distinct existing positions; one tensor left (unless `partial`)"""
     cur = n
     try:
         for step in path:
+            if any(isinstance(x, (str, bytes, float)) for x in step):
+                return False
             step = [int(x) for x in step]
             if len(step) == 0 or len(set(step)) != len(step):
                 return False
@@ -196,7 +218,7 @@ def valid_linear(n, path):
             cur = cur - len(step) + 1
     except (TypeError, ValueError):
         return False
-    return cur == 1
+    return partial or cur == 1
 
 
 def valid_ssa(n, path):
@@ -437,11 +459,23 @@ def run_finder(ctx, drv, net, netname, site, kind, label, thunk, params, case_ex
         status, val = guarded(produce)
     if status == "no-termination":
         _HANGS.add(hkey)
-    sig = {"site": site, "label": label, "ntensors": net_class(net)}
     case = {"net": net.json(), "site": site, "label": label, "params": params, "kind": kind}
     if case_extra:
         case.update(case_extra)
-    ctx.case(case, nontrivial=(n >= 3 or bool(set(feats) & {"scalar", "disconnected", "repeated"})))
+    return judge(ctx, drv, net, netname, site, kind, label, status, val, case)
+
+
+def judge(ctx, drv, net, netname, site, kind, label, status, val, case, sig_extra=None, count_case=True):
+    """the verdict on one answer of the real code: independent oracles first (failure -> violation),
+    then the verified Lean checkers on the same artefact (disagreement -> broken correspondence).
+    Returns the value when it is a valid complete contraction of `net`, else None."""
+    n = len(net.inputs)
+    feats = net.features()
+    sig = {"site": site, "label": label, "ntensors": net_class(net)}
+    if sig_extra:
+        sig.update(sig_extra)
+    if count_case:
+        ctx.case(case, nontrivial=(n >= 3 or bool(set(feats) & {"scalar", "disconnected", "repeated"})))
     ctx.count("site:" + site)
     ctx.count("finder:%s/%s" % (site, label))
     ctx.count("ntensors:" + net_class(net))
@@ -460,7 +494,8 @@ def run_finder(ctx, drv, net, netname, site, kind, label, thunk, params, case_ex
         if not ok:
             sig["error"] = "invalid-path"
             ctx.violation(sig, {"case": case, "observed": path},
-                          "%s(%s): returned linear path is not a complete valid contraction" % (site, label))
+                          "%s(%s): returned linear path is not a complete valid contraction of the %d inputs"
+                          % (site, label, n))
             return None
         r = drv.call("c05.check_linear", n=n, path=path)
         ctx.traces += 1
@@ -930,6 +965,351 @@ def check_sequence(ctx, drv, rng):
 _seq_hist = []
 
 
+# ------------------------------------------------------------------------------ sessions (pristine process image)
+
+
+_ZYG = [None]
+_CALLED_INTO_COTENGRA = [False]
+
+
+def zygote(ctx=None, drv=None):
+    """the pristine process image every session is forked from (see harness/c05_sessions.py); created
+    at the very start of run(), before this process makes its first call into cotengra"""
+    if _ZYG[0] is None:
+        import atexit
+        fds = []
+        if drv is not None and getattr(drv, "p", None) is not None:
+            fds = [drv.p.stdin.fileno(), drv.p.stdout.fileno()]
+        _ZYG[0] = c05_sessions.Zygote(close_fds=fds)
+        atexit.register(_ZYG[0].close)
+        if ctx is not None:
+            ctx.notes["sessions_forked_from_pristine_image"] = not _CALLED_INTO_COTENGRA[0]
+    return _ZYG[0]
+
+
+def preset_registry():
+    """every registered preset name (read off the live registry) with the routes it has, whether it is
+    a compressed (non-exact) finder, and -- only for an environmental reason that is checked here --
+    why it cannot run in this environment"""
+    import importlib.util
+    import shutil
+    names, ppath, ptree, compressed = c05_presets.registry()
+    out = []
+    for name in names:
+        fn = ppath.get(name, ptree.get(name))
+        kind, target, _, _ = c05_presets.describe(fn)
+        reason = None
+        if target.startswith("path_flowcutter.") and shutil.which("flow_cutter_pace17") is None:
+            reason = "external executable flow_cutter_pace17 not installed"
+        elif target.startswith("path_quickbb.") and shutil.which("quickbb_64") is None:
+            reason = "external executable quickbb_64 not installed"
+        elif name in ("hyper-spinglass", "hyper-betweenness") and importlib.util.find_spec("igraph") is None:
+            reason = "python-igraph not installed"
+        out.append({"name": name, "kind": kind, "target": target, "compressed": name in compressed,
+                    "unavailable": reason, "slow": ("hyper" in target or "hyper" in name)})
+    return out
+
+
+def chain_net(n, d=2):
+    return gen.Net([[i, i + 1] for i in range(n)], [0, n], {i: d for i in range(n + 1)})
+
+
+def ladder_net(rng, nmin, nmax):
+    """a network out of a family with widely varying cost: what one best-so-far must not survive"""
+    n = rng.randint(nmin, nmax)
+    d = rng.choice([2, 2, 3, 5, 7])
+    shape = rng.choice(["ring", "ring", "chain", "graph", "corner"])
+    if shape == "ring" and n >= 3:
+        return ring_net(n, d)
+    if shape == "chain":
+        return chain_net(n, d)
+    if shape == "corner":
+        cands = [net for _, net in corner_nets() if nmin <= len(net.inputs) <= nmax]
+        if cands:
+            return rng.choice(cands)
+    if n >= 5:
+        return medium_net(rng, n, n + 1)
+    return gen.rand_net(rng, nmin=max(nmin, 2), nmax=max(n, 2))
+
+
+def net_cost_key(net):
+    return (len(net.inputs), max(net.sizes.values(), default=1))
+
+
+def explicit_call(rng, net, flavour, container, entry):
+    n = len(net.inputs)
+    if flavour == "linear":
+        spec = {"kind": "linear", "path": rand_linear_path(rng, n), "container": container}
+    else:
+        inds = list(net.indices())
+        rng.shuffle(inds)
+        spec = {"kind": "edge", "inds": inds, "container": container}
+    return {"entry": entry, "net": net.json(), "opt": spec, "cache": rng.random() < 0.3,
+            "partial_ok": flavour == "edge" and entry == "path"}
+
+
+def gen_session(rng, presets, kind, focus=None):
+    """-> (label, calls). kinds: 'preset' (one name), 'shared' (names bound to the same class),
+    'explicit' (explicit linear / edge paths in tuple / list containers and the implicit ((0, 1),) of
+    1-/2-tensor trees, in every order), 'mixed'"""
+    avail = [p for p in presets if not p["unavailable"]]
+    calls = []
+    if kind in ("preset", "shared"):
+        p0 = focus or rng.choice(avail)
+        if kind == "shared":
+            group = [p for p in avail if p["target"] == p0["target"] and p["kind"] == p0["kind"]] or [p0]
+        else:
+            group = [p0]
+        slow = any(p["slow"] for p in group)
+        exp = any(p["name"].startswith(("optimal", "dp", "dynamic")) or "Optimal" in p["target"] for p in group)
+        nmin = 2 if slow else 1
+        nmax = 6 if slow else (8 if exp else 10)
+        k = rng.randint(2, 3) if slow else rng.randint(3, 5)
+        nets = [ladder_net(rng, nmin, nmax) for _ in range(k)]
+        order = rng.choice(["random", "cheap-first", "dear-first", "repeat"])
+        if order == "cheap-first":
+            nets.sort(key=net_cost_key)
+        elif order == "dear-first":
+            nets.sort(key=net_cost_key, reverse=True)
+        elif order == "repeat":
+            nets = nets[:2] + [nets[0]] + nets[2:]
+        for net in nets:
+            p = rng.choice(group)
+            if any(q["compressed"] for q in group) and ("scalar" in net.features() or len(net.inputs) < 3):
+                net = ring_net(rng.randint(3, 6), rng.choice([2, 3]))    # non-exact finders: plain nets only
+            calls.append({"entry": rng.choice(["path", "tree"]), "net": net.json(),
+                          "opt": {"kind": "preset", "name": p["name"]}, "cache": rng.random() < 0.3,
+                          "limit": 300 if slow else 60})
+        return (p0["name"] if kind == "preset" else "shared:" + p0["target"]), calls
+    fast = [p for p in avail if not p["slow"] and not p["compressed"]
+            and not p["name"].startswith(("optimal", "dp", "dynamic"))]
+    for _ in range(rng.randint(3, 6)):
+        what = rng.choice(["linear", "edge", "small-tree", "preset"] if kind == "mixed" else
+                          ["linear", "linear", "edge", "edge", "small-tree"])
+        if what == "small-tree":
+            net = rng.choice([net for _, net in corner_nets() if len(net.inputs) <= 2])
+            calls.append({"entry": "tree", "net": net.json(), "opt": {"kind": "preset", "name": "greedy"},
+                          "cache": False})
+        elif what == "preset":
+            net = ladder_net(rng, 1, 8)
+            calls.append({"entry": rng.choice(["path", "tree"]), "net": net.json(),
+                          "opt": {"kind": "preset", "name": rng.choice(fast)["name"]}, "cache": rng.random() < 0.3})
+        else:
+            net = ladder_net(rng, 2, 8)
+            if what == "edge" and not net.indices():
+                net = ring_net(4)
+            calls.append(explicit_call(rng, net, what, rng.choice(["tuple", "tuple", "list"]),
+                                       rng.choice(["path", "tree"])))
+    return kind, calls
+
+
+def record_ok(call, rec):
+    """implementation-side verdict on one record of a session (python oracles only)"""
+    if rec.get("status") != "ok":
+        return False
+    net = gen.Net.from_json(call["net"])
+    n = len(net.inputs)
+    v = rec["val"]
+    if call["entry"] == "path":
+        return valid_linear(n, v["path"], partial=bool(call.get("partial_ok")))
+    return bool(tree_ok(n, v["children"]) and v["N"] == n and valid_linear(n, v.get("lin"))
+                and valid_ssa(n, v.get("ssa")))
+
+
+def run_session(ctx, drv, label, calls, skind):
+    """execute in a pristine image, judge every answer; -> (all ok, seconds per call)"""
+    zyg = zygote(ctx)
+    limit = max(c.get("limit", 60) for c in calls)
+    status, recs, detail = zyg.run(calls, limit=limit)
+    ctx.count("session:" + skind)
+    ctx.count("session_calls", len(calls))
+    secs = [r.get("s", 0) for r in recs]
+    if status == "harness-error":
+        raise RuntimeError("session driver: " + str(detail))
+    ok_all = True
+    for i, call in enumerate(calls):
+        net = gen.Net.from_json(call["net"])
+        opt = call["opt"]
+        optname = opt["name"] if opt["kind"] == "preset" else "%s-%s" % (opt["kind"], opt.get("container"))
+        case = {"site": "session", "label": label, "kind": call["entry"], "net": call["net"], "params": {},
+                "session": skind, "calls": calls[:i + 1]}
+        sig_extra = {"opt": optname, "step": "first" if i == 0 else "later"}
+        if i >= len(recs):
+            # the session ended here without an answer: killed by a signal or by the time limit
+            judge(ctx, drv, net, "session", "session", call["entry"], label, status, str(detail), case, sig_extra)
+            ok_all = False
+            break
+        rec = recs[i]
+        ctx.count("session_opt:" + opt["kind"])
+        ctx.count("session_step:%s/%s" % (optname, call["entry"]))
+        for wtxt in rec.get("warn", []):
+            if "not complete" in wtxt:
+                ctx.count("session_warn:path-autocompleted")
+        if rec["status"] == "ok" and call["entry"] == "path" and call.get("partial_ok"):
+            # an edge path may legitimately stop early: it must replay (from_path completes it)
+            path = rec["val"]["path"]
+            ctx.case(case, nontrivial=len(net.inputs) >= 3)
+            if not valid_linear(len(net.inputs), path, partial=True):
+                sig = {"site": "session", "label": label, "ntensors": net_class(net), "error": "invalid-path"}
+                sig.update(sig_extra)
+                ctx.violation(sig, {"case": case, "observed": path},
+                              "session %s step %d: edge path converts to a linear path naming a position "
+                              "that does not exist" % (label, i))
+                ok_all = False
+                break
+            r = drv.call("c05.check_linear", n=len(net.inputs), path=path)
+            ctx.traces += 1
+            if not r.get("replays"):
+                ctx.corr_broken("Lean checkLinearPartial rejects a path the oracle accepts", case)
+            continue
+        val = judge(ctx, drv, net, "session", "session", call["entry"], label, rec["status"],
+                    rec.get("val") if rec["status"] == "ok" else rec.get("msg"), case, sig_extra)
+        if val is None:
+            ok_all = False
+            break
+    return ok_all, secs
+
+
+def check_sessions(ctx, drv, rng, budget_s, rounds):
+    """sequences through every registered preset string and through explicit paths, each in a
+    pristine process image"""
+    t0 = time.time()
+    presets = preset_registry()
+    ctx.notes["presets_registered"] = [p["name"] for p in presets]
+    ctx.notes["presets_unavailable_here"] = {p["name"]: p["unavailable"] for p in presets if p["unavailable"]}
+    avail = [p for p in presets if not p["unavailable"]]
+    fast = [p for p in avail if not p["slow"]]
+    slow = [p for p in avail if p["slow"]]
+    rng.shuffle(slow)                                   # which slow presets come first differs per seed
+    plan = []
+    for r in range(rounds):
+        for p in fast:
+            plan.append(("preset", p))
+        plan += [("explicit", None), ("explicit", None), ("mixed", None), ("shared", None)]
+        if r == 0:
+            for p in slow:
+                plan.append(("preset", p))
+    spent = {}
+    for skind, p in plan:
+        if time.time() - t0 > budget_s or ctx.time_left() < 40:
+            ctx.count("sessions_plan_cut_short")
+            break
+        if p is not None and p["slow"] and time.time() - t0 > 0.6 * budget_s:
+            ctx.count("sessions_slow_preset_skipped:" + p["name"])
+            continue
+        label, calls = gen_session(rng, presets, skind, focus=p)
+        ok, secs = run_session(ctx, drv, label, calls, skind)
+        if p is not None:
+            spent[p["name"]] = round(spent.get(p["name"], 0) + sum(secs), 2)
+    ctx.notes["session_seconds_per_preset"] = spent
+    ctx.count("session_seconds_total", int(time.time() - t0))
+
+
+# ------------------------------------------------------------------------------ best-so-far state (E)
+
+
+def _ranks(values):
+    order = sorted(set(values))
+    return {v: i for i, v in enumerate(order)}
+
+
+def check_best_so_far(ctx, drv, rng):
+    """`RandomGreedyOptimizer`'s carried state against Model/BestSoFar (E, intermediate state after
+    every call): (1) one *shared* instance driven over different networks -- its documented misuse, what a
+    preset bound to an instance would do -- with the inner finder's results logged: returned path,
+    `best_ssa_path` and `best_flops` after every call must be the model's; (2) the function the
+    'random-greedy' preset is bound to, same sequence: every answer is the path found for the queried
+    network (`Binding.freshPerCall`)."""
+    nets = [ladder_net(rng, 2, 8) for _ in range(rng.randint(2, 5))]
+    if rng.random() < 0.3:
+        nets.append(nets[0])
+    seed = rng.randrange(1 << 30)
+    reps = rng.choice([1, 2, 4])
+    log, answers, snaps = [], [], []
+
+    def real_shared():
+        opt = pb.RandomGreedyOptimizer(max_repeats=reps, seed=seed, parallel=False)
+        inner = opt._optimize_fn
+
+        def rec(*a, **k):
+            r = inner(*a, **k)
+            log.append(r)
+            return r
+        opt._optimize_fn = rec
+        for net in nets:
+            ans = opt.ssa_path(*args_of(net))
+            answers.append([list(map(int, st)) for st in ans])
+            snaps.append(([list(map(int, st)) for st in opt.best_ssa_path], opt.best_flops))
+    st, msg = guarded(real_shared, limit=30)
+    ctx.count("best_so_far:shared_sequences")
+    case = {"nets": [x.json() for x in nets], "seed": seed, "max_repeats": reps}
+    if st != "ok" or len(log) != len(nets):
+        ctx.corr_broken("RandomGreedyOptimizer.ssa_path could not be driven as the model assumes "
+                        "(one inner search per call): %s %s" % (st, msg), case)
+        return
+    rk = _ranks([f for _, f in log] + [f for _, f in snaps])
+    found = [{"path": [list(map(int, s_)) for s_ in p_], "flops": rk[f]} for p_, f in log]
+    r = drv.call("c05.best_so_far", found=found, shared=True)
+    ctx.traces += 1
+    model_states = [(s_["best"], s_["flops"]) for s_ in r.get("states", [])]
+    real_states = [(p_, rk[f]) for p_, f in snaps]
+    if r.get("answers") != answers or model_states != real_states:
+        ctx.corr_broken("RandomGreedyOptimizer: returned path / best_ssa_path / best_flops after each call "
+                        "differ from Model/BestSoFar", dict(case, real=[answers, real_states], model=r))
+        return
+    wrong = sum(1 for net, a in zip(nets, answers) if not valid_ssa(len(net.inputs), a))
+    ctx.count("best_so_far:shared_instance_answers", len(nets))
+    ctx.count("best_so_far:shared_instance_answers_for_another_network", wrong)
+    # (2) the binding of the preset itself
+    from cotengra import interface as I
+    fn = I._PRESETS_PATH.get(rng.choice(["random-greedy", "random-greedy-128"]))
+    kind = c05_presets.describe(fn)[0] if fn is not None else "missing"
+    ctx.count("best_so_far:preset_bound_to_" + kind)
+    if kind not in ("function", "partial"):
+        return
+    log2, answers2 = [], []
+    orig = pb.optimize_random_greedy_track_flops
+
+    def rec2(*a, **k):
+        r_ = orig(*a, **k)
+        log2.append(r_)
+        return r_
+
+    def real_fresh():
+        pb.optimize_random_greedy_track_flops = rec2
+        pb.get_optimize_random_greedy_track_flops.cache_clear()    # an lru_cache holds the function
+        try:
+            for net in nets:
+                ans = fn(*args_of(net), parallel=False, max_repeats=reps, seed=seed)
+                answers2.append([list(map(int, st)) for st in ans])
+        finally:
+            pb.optimize_random_greedy_track_flops = orig
+            pb.get_optimize_random_greedy_track_flops.cache_clear()
+    st, msg = guarded(real_fresh, limit=30)
+    if st != "ok" or len(log2) != len(nets):
+        ctx.corr_broken("the function behind the 'random-greedy' preset could not be driven as the model "
+                        "assumes (a fresh optimizer and one inner search per call): %s %s" % (st, msg), case)
+        return
+    rk2 = _ranks([f for _, f in log2])
+    found2 = [{"path": [list(map(int, s_)) for s_ in p_], "flops": rk2[f]} for p_, f in log2]
+    r2 = drv.call("c05.best_so_far", found=found2, shared=False)
+    ctx.traces += 1
+    want = [[list(map(int, st)) for st in pb.ssa_to_linear(a)] if a is not None else None
+            for a in r2.get("answers", [])]
+    if want != answers2:
+        ctx.corr_broken("preset function: the answers are not the paths found for the queried networks "
+                        "(Binding.freshPerCall)", dict(case, real=answers2, model=r2))
+        return
+    for net, a in zip(nets, answers2):
+        if not valid_linear(len(net.inputs), a):
+            ctx.violation({"site": "preset-function", "label": "random-greedy", "ntensors": net_class(net),
+                           "error": "invalid-path"},
+                          {"case": {"site": "array_contract_path", "label": "random-greedy", "net": net.json(),
+                                    "params": {}}, "observed": a},
+                          "random-greedy preset function: invalid path")
+    ctx.count("best_so_far:fresh_sequences")
+
+
 # ------------------------------------------------------------------------------ hyper optimizer route
 
 
@@ -964,9 +1344,12 @@ def replay_corpus(ctx):
 
 
 def run(ctx, drv):
-    replay_corpus(ctx)
+    zygote(ctx, drv)            # before this process makes its first call into cotengra
+    _CALLED_INTO_COTENGRA[0] = True
     rng = ctx.rng
     quick = ctx.tier == "quick"
+    check_sessions(ctx, drv, rng, budget_s=(75 if quick else 600), rounds=(2 if quick else 12))
+    replay_corpus(ctx)
     for _ in range(600 if quick else 6000):
         check_separate(ctx, drv, rng)
     for _ in range(150 if quick else 1500):
@@ -996,6 +1379,10 @@ def run(ctx, drv):
         if ctx.time_left() < 20:
             break
         check_sequence(ctx, drv, rng)
+    for _ in range(40 if quick else 400):
+        if ctx.time_left() < 20:
+            break
+        check_best_so_far(ctx, drv, rng)
 
 
 def _rebuild(case):
@@ -1069,6 +1456,24 @@ def _rebuild(case):
     raise KeyError(site)
 
 
+def replay_session(case):
+    """the calls of a session, in order, in a process image that has not called into cotengra yet
+    (a forked child of this fresh replay process, so that it can be repeated for unseeded finders);
+    the verdict is on the answer to the last call"""
+    calls = case["calls"]
+    limit = max(c.get("limit", 60) for c in calls)
+    for _ in range(4):
+        st, recs = forked(lambda: c05_sessions.run_inprocess(calls, limit), limit=limit * len(calls) + 30)
+        if st != "ok":
+            print("# replay:", st, recs)
+            return False
+        if not record_ok(calls[-1], recs[-1]):
+            print("# replay: call %d of the session: %s" % (len(calls) - 1,
+                  recs[-1].get("msg") or "returned contraction is not valid/complete"))
+            return False
+    return True
+
+
 def replay(ctx, obj):
     case = obj.get("case", obj)
     if "which" in case and "parts" in case:      # a kahypar short-circuit case
@@ -1082,6 +1487,8 @@ def replay(ctx, obj):
         return True
     if "site" not in case:
         return True
+    if case["site"] == "session":
+        return replay_session(case)
     try:
         net, kind, thunk = _rebuild(case)
     except KeyError:
